@@ -232,11 +232,16 @@ class C15(Check):
     level_text = ('Theorems in Coq about an executable model that mirrors src/Document/Json.cpp decision by decision (cursor = remaining '
                   'bytes + line over a NUL-terminated text, every `++pos.pos` a checked advance, loops with explicit fuel): parse never runs '
                   'out of fuel 2*length+3 and never steps past the terminator for every byte string; a reported (line, column) is the '
-                  'coordinate pair of an offset of the text; parse(toString v) = canon v (equal tree) for every tree of null, booleans, '
+                  'coordinate pair of an offset of the text; the answer of parse is the same function of the text for every history of the '
+                  'Parser object and every previous content of the target Variant (the object model keeps pos.line and the error fields '
+                  'across calls; repair 06 clears the target), so the error position of a second parse lies inside the second text; the static '
+                  'wrappers are parse on a fresh object; parse(toString v) = canon v (equal tree) for every tree of null, booleans, '
                   '32/64-bit integers, NUL-free strings, lists and maps with distinct NUL-free keys (layers: unescape(escape s) = s, atoll(printf z) = z); '
-                  'the string tokenizer = RFC 8259 on valid literals (escapes, surrogate pairs, UTF-8); stripComments = a five-state reference '
-                  'machine for every input, keeps every line break, is the identity on texts without a slash. The model is tied to the code '
-                  'by running the extracted model, the extracted spec and the ASan/UBSan build on the same inputs (parse results, error '
+                  'the string tokenizer = RFC 8259 on valid literals (escapes, surrogate pairs, UTF-8); stripComments on the C string inside the '
+                  'String (bytes before the first 0 byte) = a five-state reference machine for every input, keeps every line break, is the '
+                  'identity on texts without a slash, is never longer than its input, and a second transcription with every src[k] read and '
+                  'every *(dest++) write checked against the two buffers (data.length()+1 bytes each) never leaves them. The model is tied to '
+                  'the code by running the extracted model, the extracted spec and the ASan/UBSan build on the same inputs (parse results, error '
                   'positions, toString text, re-parsed trees, stripped texts compared line by line; exact-size heap copies; watchdog).')
     level_note = ('Partial: libc is modelled by reference functions (printf %d/%lld = print_dec, atoll = ref_atoll incl. saturation, '
                   'sscanf %x on four checked hex digits = positional value, strpbrk = find_one_of) - atoll(printf z) = z is proved for the '
@@ -245,18 +250,29 @@ class C15(Check):
                   'needs no depth hypothesis, depth up to 1000 is validated by correspondence only (stream nesting). HashMap is modelled as '
                   'an insertion-ordered association list with replace-in-place on a repeated key. Beyond the property text: the string tokenizer '
                   'yields the RFC 8259 / RFC 3629 value of every valid literal (theorem string_token_is_rfc8259 against JsonSpec.ref_string; the same '
-                  'reference judges the implementation on op pstr). Trusted: Coq kernel, JsonSpec.v (position_inside, reference_strip_from, in_class/value_eq/canon), extraction + OCaml '
-                  'driver, harness, generators. The theorems are about the model; the tie to the code is differential.')
+                  'reference judges the implementation on op pstr). Documented choices where the text is silent (model mirrors the code, no '
+                  'theorem judges them): a raw CR / LF / CR LF inside a string literal is accepted, counted as a line break and dropped from the '
+                  'value; an escape \\u0000 puts a 0 byte into the String; an unknown escape keeps its backslash; a String with an embedded 0 '
+                  'byte is stripped as the C string before that byte. The reference strip machine of JsonSpec.v is a trusted specification with '
+                  'the same five states as the code (its consequences keeps-line-breaks / identity-without-slash / never-longer are proved, a '
+                  'grammar-style characterisation is not). After a successful call on a reused Parser the error getters still show the '
+                  'previous failure (theorem parser_error_fields states it; not part of the property). '
+                  'Trusted: Coq kernel, JsonSpec.v (position_inside, reference_strip_from, in_class/value_eq/canon), extraction + OCaml '
+                  'driver, harness (it compares the answers of a reused Parser / non-empty target with those of fresh ones itself), generators. '
+                  'The theorems are about the model; the tie to the code is differential.')
     technique = 'coq-proof + model/implementation correspondence (extracted model vs ASan/UBSan build), spec oracles on implementation answers'
-    rule = ('cases = one call each: parse <text>, pstr <string literal content>, strip <text>, rt <tree> (toString then parse); streams: '
+    rule = ('cases = one call each: parse <text>, pstr <string literal content>, strip <String bytes>, rt <tree> (toString then parse), '
+            'parse2 <shared target?> <text1> <text2> (one Parser object), into <tree> <text> and rtinto <tree0> <tree> (target already holds a value), '
+            'sparse <c|s|p> <text> (static wrappers, String overloads); streams: '
             'exhaustive short texts over the delimiter alphabet, over a string-token alphabet and over a comment alphabet; valid documents in many '
             'styles; mutations aimed at escapes, quotes and the terminator; every truncation of sample documents; every byte after a backslash; '
             'truncated and mispaired \\u escapes; line/column documents with CR, LF, CR LF inside and outside strings; comments next to strings '
-            'and escapes; value trees with every byte 1..255 and the integer boundaries; nesting to depth 1000. A case is non-trivial when the '
-            'text has at least 3 bytes and one of " \\ / [ { (parse/strip/pstr) or the tree has a container or a byte that must be escaped (rt); '
-            'distinct = distinct op text')
+            'and escapes; value trees with every byte 1..255 and the integer boundaries; nesting to depth 1000; pairs of failing / succeeding texts on one '
+            'Parser; targets holding scalars, lists, maps; strings of 4..64 KiB and containers of 100+ items; Strings with an embedded 0 byte. A case is '
+            'non-trivial when the text has at least 3 bytes and one of " \\ / [ { (parse/strip/pstr), the tree has a container or a byte that must be '
+            'escaped (rt), or the op line of a reuse op has at least 20 characters; distinct = distinct op text')
     assumptions = ['libc printf("%d"/"%lld"), atoll, sscanf("%x"), strpbrk behave as the reference functions of JsonModel.v (print_dec, ref_atoll, hexn, find_one_of)',
-                   'Variant/HashMap/List/String behave as value trees with an insertion-ordered map (checked by the dump of every parsed tree)']
+                   'Variant/HashMap/List/String behave as value trees with an insertion-ordered map (checked by the dump of every parsed tree); Variant::clear() empties the target']
 
     def run_impl(self, cases, tag='impl'):
         """as Check.run_impl, but a stream on which the implementation crashes hundreds of times (every crash restarts
@@ -294,6 +310,8 @@ class C15(Check):
                     return True
             if t[0] == 'rt' and (t[1].count(',') >= 1 or any(x in t[1] for x in ('22', '5c', '0a', '0d'))):
                 return True
+            if t[0] in ('parse2', 'into', 'rtinto', 'sparse') and len(l) >= 20:
+                return True
         return False
 
     @staticmethod
@@ -321,12 +339,48 @@ class C15(Check):
         if kind == 'pstr':
             return ('pstr: the value of a valid JSON string literal differs from the RFC 8259 reference (escapes, surrogate pairs, UTF-8 bytes): '
                     'spec expects `%s`, implementation gives `%s`' % (exp[:200], got[:200]))
+        if kind == 'parse2':
+            return ('parse2: one Parser object used for two texts (flag 1: also one target Variant) does not answer like a fresh Parser with a fresh '
+                    'Variant (first field 1 = same answers; then the two answers): `%s`' % got[:300])
+        if kind == 'into':
+            return ('into: parse into a Variant that already holds a value does not answer like parse into a fresh Variant '
+                    '(first field 1 = same answer; then the answer): `%s`' % got[:300])
+        if kind == 'rtinto':
+            return ('rtinto: toString then parse into a Variant that already holds a value does not give an equal tree '
+                    '(observation: equal flag | text, parse result): expected `%s` got `%s`' % (exp[:200], got[:300]))
         if kind == 'rt' and got.startswith('1 |'):
             return ('rt: toString then parse gives an equal tree, but not the one the theorem parse_toString_roundtrip names (canon v: integers that fit '
                     '32 bits come back as intType, everything else identical): expected `%s` got `%s`' % (exp[:200], got[:300]))
         if kind == 'rt':
             return 'rt: toString then parse does not give an equal tree (observation: equal flag | text, parse result): `%s`' % got[:300]
         return '%s: spec expects `%s`, implementation gives `%s`' % (kind, exp[:200], got[:200])
+
+    @staticmethod
+    def _error_positions(opl, ol):
+        """(text, line, column) for every reported failure in the observation line of an op"""
+        import re
+        t = opl.split(' ')
+        out = []
+        def one(text, ans):
+            a = ans.strip().split(' ')
+            if a and a[0] == 'err' and len(a) >= 3:
+                out.append((text, a[1], a[2]))
+            elif a and a[0] == 'serr' and len(a) >= 2:
+                m = re.match(r'Syntax_error_at_line_(-?\d+),_column_(-?\d+):', a[1])
+                out.append((text, m.group(1), m.group(2)) if m else (text, '0', '0'))
+        if t[0] == 'parse' and len(t) >= 2:
+            one(t[1], ol)
+        elif t[0] == 'parse2' and len(t) >= 4:
+            secs = ol.split(' | ')
+            if len(secs) >= 3:
+                one(t[2], secs[1]); one(t[3], secs[2])
+        elif t[0] == 'into' and len(t) >= 3:
+            secs = ol.split(' | ')
+            if len(secs) >= 2:
+                one(t[2], secs[1])
+        elif t[0] == 'sparse' and len(t) >= 3:
+            one(t[2], ol)
+        return out
 
     def judge(self, cases, impl_obs, spec_obs):
         from vf import first_diff
@@ -352,17 +406,15 @@ class C15(Check):
         chk, idx = [], []
         for i, (c, o) in enumerate(zip(cases, impl_obs)):
             for k, (opl, ol) in enumerate(zip(c, o)):
-                if opl.startswith('parse ') and ol.startswith('err '):
-                    t = ol.split(' ')
-                    if len(t) >= 3:
-                        chk.append(['chkpos %s %s %s' % (opl.split(' ')[1], t[1], t[2])])
-                        idx.append((i, k, t[1], t[2]))
+                for text, l, col in self._error_positions(opl, ol):
+                    chk.append(['chkpos %s %s %s' % (text, l, col)])
+                    idx.append((i, k, l, col))
         if chk:
             res = self.run_spec(chk, tag='spec_chkpos')
             for (i, k, l, col), r in zip(idx, res):
                 if r != ['1'] and i not in failed:
                     failed.add(i)
-                    fails.append((i, k, 'parse: error position (line, column) is not inside the text: line %s column %s' % (l, col)))
+                    fails.append((i, k, '%s: error position (line, column) is not inside the text: line %s column %s' % (cases[i][k].split(' ')[0], l, col)))
         # shortest failing text first: the report of a group of equal failures shows the smallest witness of the stream
         fails.sort(key=lambda f: sum(len(l) for l in cases[f[0]]))
         return fails
@@ -428,7 +480,102 @@ class C15(Check):
                 cases.append(['rt ' + 'M1,k61,' * d + 'i1'])
         out.append(Stream('nesting', cases, note='arrays/objects nested up to depth 1000, closed and truncated'))
         out += self.streams_case_splits(thorough, rng, docs)
+        out += self.streams_reuse(thorough, rng, docs)
+        out += self.streams_large(thorough, rng)
         return out
+
+    def streams_reuse(self, thorough, rng, docs):
+        """one Parser object for two texts, targets that already hold a value, the static wrappers and the String overloads"""
+        bad = [b'!', b'\n\n\n[1 2', b'[\r\n\r\n"a" "b"]', b'{"a":\n\n\n1,\n}', b'"abc', b'\n\n"\\', b'[1,\n2,\n3,\n4,\n', b'tru', b'\r\r\r\rx',
+               b'{"k":[1,2,{"x":nul}]}', b'[[[[\n]]]\n\n]]', b'', b' ', b'\n', b'"l1\nl2\nl3" x', b'[1,2,3]\n\n\n,']
+        good = [b'[]', b'{}', b'[1]', b'[1,2,3]', b'{"a":1}', b'{"a":1,"b":[true,null]}', b'"s"', b'1', b'null', b'true', b'-7', b'[[],{}]',
+                b'{"a":{"a":{"a":[]}}}', b'\n\n[\n1\n]\n', b'{"a":1,"a":2}', b'{"b":2,"a":1}', b'[null]', b'9999999999']
+        def text():
+            r = rng.random()
+            if r < 0.3:
+                return rng.choice(bad)
+            if r < 0.55:
+                return rng.choice(good)
+            if r < 0.8:
+                return rng.choice(docs)
+            return mutate(rng, rng.choice(docs))
+        cases = []
+        for a in bad + good[:8]:
+            for b in bad[:10] + good[:8]:
+                cases.append(['parse2 0 %s %s' % (hexs(a), hexs(b))])
+                cases.append(['parse2 1 %s %s' % (hexs(a), hexs(b))])
+        for _ in range(4000 if thorough else 600):
+            cases.append(['parse2 %d %s %s' % (rng.randrange(2), hexs(text()), hexs(text()))])
+        out = [Stream('parser-reuse', cases, note='one Json::Parser for two texts (all pairs of a table of failing / succeeding texts with line breaks, random pairs); '
+                                                  'flag 1: also one target Variant; both answers compared with a fresh Parser + Variant, error positions judged against their own text')]
+        cases = []
+        targets = ['n', 't', 'i5', 'I9999999999', 's61', 's-', 'L0', 'L1,i0', 'L2,n,s78', 'M0', 'M1,k61,i0', 'M2,k61,i0,k62,L1,n', 'L1,L1,i1', 'M1,k61,M1,k61,n']
+        for tg in targets:
+            for d in good + bad[:6]:
+                cases.append(['into %s %s' % (tg, hexs(d))])
+        for _ in range(3000 if thorough else 500):
+            cases.append(['into %s %s' % (enc(gen_tree(rng, rng.randrange(0, 3))), hexs(text()))])
+        for tg in targets:
+            for tr in ['n', 'i1', 's61', 'L0', 'L1,i1', 'L2,i1,i2', 'M0', 'M1,k61,i1', 'M1,k62,i1', 'M2,k62,n,k61,t', 'L1,M1,k61,L1,n']:
+                cases.append(['rtinto %s %s' % (tg, tr)])
+        for _ in range(3000 if thorough else 500):
+            cases.append(['rtinto %s %s' % (enc(gen_tree(rng, rng.randrange(0, 3))), enc(gen_tree(rng, rng.randrange(0, 4))))])
+        out.append(Stream('target-reuse', cases, note='parse / toString-then-parse into a Variant that already holds null, a scalar, a list or a map'))
+        cases = []
+        for d in bad + good:
+            for m in 'csp':
+                cases.append(['sparse %s %s' % (m, hexs(d))])
+        for _ in range(2400 if thorough else 450):
+            cases.append(['sparse %s %s' % (rng.choice('csp'), hexs(text()))])
+        out.append(Stream('entry-points', cases, note='static Json::parse(const char*), static Json::parse(const String&) (failure text from Error::getErrorString), '
+                                                      'Parser::parse(const String&)'))
+        return out
+
+    def streams_large(self, thorough, rng):
+        """sizes at which buffers are reallocated: strings of 4..64 KiB, containers of 100+ items"""
+        cases = []
+        def big(n, kind):
+            if kind == 0:
+                return bytes(rng.choice(b'abcdefghijklmnopqrstuvwxyz 0123456789') for _ in range(n))
+            if kind == 1:                                     # everything must be escaped: the reserve arithmetic 2 + 2 * length
+                return bytes(rng.choice(b'"\\\n\r') for _ in range(n))
+            if kind == 2:
+                return bytes(rng.randrange(1, 256) for _ in range(n))
+            return (gen_bytes(rng, 12) or b'x') * (n // 6 + 1)
+        sizes = [4096, 4095, 4097, 8192, 16384, 65536, 65535] if thorough else [4096, 4097, 16384, 65536]
+        for n in sizes:
+            for kind in range(4):
+                s = big(n, kind)[:n]
+                cases.append(['rt s' + s.hex()])
+                if kind != 2:
+                    cases.append(['rt L2,s%s,M1,k%s,i1' % (s.hex(), s[:n // 2].hex())])
+        for n in ([100, 101, 128, 257, 1000] if thorough else [100, 257]):
+            cases.append(['rt ' + enc([('i', k) for k in range(n)])])
+            cases.append(['rt ' + enc([gen_bytes(rng, 20) for k in range(n)])])
+            cases.append(['rt ' + enc(('M', [(b'key%d' % k, ('I', k * 10**10)) for k in range(n)]))])
+            cases.append(['rt ' + enc(('M', [(b'k%d' % k, [None, True, b'v%d' % k]) for k in range(n)]))])
+            cases.append(['rtinto L1,i0 ' + enc([('i', k) for k in range(n)])])
+            cases.append(['parse ' + hexs(b'[' + b','.join(b'"%d"' % k for k in range(n)) + b', ]')])
+            cases.append(['parse ' + hexs(b'{' + b',\n'.join(b'"k%d":%d' % (k, k) for k in range(n)) + b',\n"x" 1}')])
+        for n in ([4096, 65536] if thorough else [4096]):
+            s = big(n, 0)
+            cases.append(['parse ' + hexs(b'"' + s)])                                 # unterminated long literal
+            cases.append(['parse ' + hexs(b'["' + s + b'"\n"x"]')])
+            cases.append(['parse ' + hexs(b'"' + b'\\u00e9' * (n // 6) + b'"')])
+            cases.append(['parse ' + hexs(b'1' * 300)])                                # a long number (saturates)
+            cases.append(['parse ' + hexs(b' \n' * (n // 2) + b'x')])                  # many line breaks, then an error
+            cases.append(['strip ' + hexs(b'/*' + s + b'*/' + s + b'//' + s)])
+            cases.append(['strip ' + hexs(b'"' + s + b'\\"' + s + b'" /* ' + s)])
+            cases.append(['strip ' + hexs(b'/*' + b'\n*' * (n // 2) + b'/x')])
+            cases.append(['strip ' + hexs(s + b'/')])
+        for k in range(60 if thorough else 20):                                         # a 0 byte inside the String
+            d = with_comments(rng, gen_doc(rng))
+            at = rng.randrange(len(d) + 1)
+            cases.append(['strip ' + hexs(d[:at] + b'\0' + d[at:])])
+        for d in [b'\0', b'a\0b', b'/\0/', b'/*\0*/', b'"\\\0"', b'//x\0\ny', b'/* a\0 */ b', b'"\0', b'a/\0', b'/*x*\0/']:
+            cases.append(['strip ' + hexs(d)])
+        return [Stream('large', cases, note='strings of 4..64 KiB (plain, every byte escaped, arbitrary bytes) alone and inside containers, containers of 100+ items, '
+                                            'long literals / numbers / runs of line breaks, long comments; Strings with an embedded 0 byte through stripComments')]
 
     def streams_case_splits(self, thorough, rng, docs):
         """generators aimed at the case splits of the proofs (str_loop_good, hexn_good, read_token_good, strip_*_ref)"""
